@@ -297,7 +297,16 @@ func (a *Analyzer) CheckRule(clause ast.Clause) error {
 			if stmt.Var == nil {
 				return fmt.Errorf("all statements following group by have to be let-statements %v", clause)
 			}
-			if !builtin.IsReducerFunction(stmt.Fn.Function) {
+			if builtin.IsReducerFunction(stmt.Fn.Function) {
+				// A reducer reads its arguments from the solutions of the rule body.
+				uses := make(map[ast.Variable]bool)
+				ast.AddVars(stmt.Fn, uses)
+				for v := range uses {
+					if !hasValue(boundVars, uf, v) {
+						return fmt.Errorf("in %v, variable %v in reducer %v is not bound by the rule body", clause, v, stmt.Fn)
+					}
+				}
+			} else {
 				uses := make(map[ast.Variable]bool)
 				ast.AddVars(stmt.Fn, uses)
 				for v := range uses {
